@@ -80,14 +80,14 @@ def run(tier, seed, replay=None):
 
     traces, meta = [], {}
 
-    def execute(prog, form, control, origin, step_ns=1, shuffle=None):
+    def execute(prog, form, control, origin, step_ns=1, shuffle=None, early=0, prior=0):
         labels, probe, w, err = run_program(prog, form=form, control=control, step_ns=step_ns,
-                                            shuffle_push=shuffle)
+                                            shuffle_push=shuffle, early=early, prior=prior)
         tid = len(traces) + 1
         end_ns = None if prog.end_t == INF else prog.end_t * step_ns
         traces.append(to_trace(tid, probe.log, end_ns))
         meta[tid] = dict(origin=origin, form=form, control=control, step_ns=step_ns, end_t=prog.end_t,
-                         events=prog.events, delivered=labels)
+                         events=prog.events, delivered=labels, early=early, prior=prior)
         chk.impl_steps += len(labels)
         if err:
             chk.violation(f"exception:{err.split(':')[0]}", f"real engine raised {err}", meta[tid])
@@ -120,8 +120,11 @@ def run(tier, seed, replay=None):
     for k in range(n_rand):
         p = random_program(rng, burst=(k % 3 == 0), max_total=12 + (k % 5) * 10)
         form, control = VARIANTS[k % len(VARIANTS)]
+        # every 4th program: some pre-run events are created before Simulation() exists, after
+        # unrelated earlier activity in the interpreter (sort indices must still follow creation)
+        early = rng.randint(1, 4) if k % 4 == 1 else 0
         execute(p, form, control, "random", step_ns=(1, 1000, 10**9)[k % 3],
-                shuffle=rng if k % 2 else None)
+                shuffle=rng if k % 2 else None, early=early, prior=rng.randint(0, 7) if early else 0)
 
     verdicts, results = tlc.validate_traces(SPEC / "EngineTrace.tla", traces, label="C01_trace")
     for r in results:
